@@ -88,13 +88,17 @@ W = world.World(imax=6, jmax=5, N=2, h=20.0, dx=1000.0)
 PX, PY, PZ = 2.5, 2.0, 5.0  # on a u-node; v-node not needed (v = -2*tag uniform)
 
 
-def run_layout(nsteps, frames, sizes, rev, scalar, units="seconds", late=0, flat=False):
+def run_layout(nsteps, frames, sizes, rev, scalar, units="seconds", late=0, flat=False, d=None):
     """Returns (sig, msg) or None."""
     from ladim.ROMS import Forcing, Grid
     from ladim.state import State
     from ladim.timekeeper import TimeKeeper
 
-    d = util.scratch("c03")
+    if d is None:
+        d = util.scratch("c03")
+    else:  # the same file names are re-used for the next layout: nothing may be remembered about the old files
+        for f_ in d.iterdir():
+            f_.unlink()
     sgn = -1 if rev else 1
     tg = {s: tag(s) for s in frames}
     if flat:  # the first two frames (in simulation order) carry the same field, the later ones differ
@@ -177,16 +181,26 @@ def run_case(case):
     viols, n, nt = [], 0, 0
     outcomes = set()
     comps = list(compositions(len(frames)))
+    combos = [(list(sz), rev, sc) for sz in comps for rev in (False, True) for sc in (False, True)]
+    if nsteps >= 2:  # the same layouts with an empty state during the first steps (first release at step 1 or 2)
+        combos += [(list(comps[0]), rev, True, late) for rev in (False, True) for late in range(1, min(nsteps, 3))]
+        combos += [(list(comps[-1]), False, False, nsteps - 1)]
+    if len(frames) >= 3:  # the first two frames identical, the field changes only later
+        combos += [(list(comps[0]), rev, False, 0, True) for rev in (False, True)]
+    warm = 0
     if "only" in case:
-        combos = [tuple(case["only"])]
-    else:
-        combos = [(list(sz), rev, sc) for sz in comps for rev in (False, True) for sc in (False, True)]
-        if nsteps >= 2:  # the same layouts with an empty state during the first steps (first release at step 1 or 2)
-            combos += [(list(comps[0]), rev, True, late) for rev in (False, True) for late in range(1, min(nsteps, 3))]
-            combos += [(list(comps[-1]), False, False, nsteps - 1)]
-        if len(frames) >= 3:  # the first two frames identical, the field changes only later
-            combos += [(list(comps[0]), rev, False, 0, True) for rev in (False, True)]
-    for combo in combos:
+        # replay of one layout: the layouts executed before it in the same directory are executed first (unchecked), because
+        # the files of the checked layout REPLACE those of its predecessors under the same names
+        norm = lambda c: [list(c[0]), c[1], c[2], c[3] if len(c) > 3 else 0, c[4] if len(c) > 4 else False]  # noqa: E731
+        want = (list(case["only"]) + [0, False])[:5]
+        idx = next((i for i, c in enumerate(combos) if norm(c) == [list(want[0])] + want[1:]), None)
+        if idx is None:
+            combos = [tuple(case["only"])]
+        else:
+            combos = combos[: idx + 1]  # the whole history of this directory up to the checked layout
+            warm = len(combos) - 1
+    dshared = util.scratch("c03")
+    for ci, combo in enumerate(combos):
         sz, rev, sc = combo[:3]
         late = combo[3] if len(combo) > 3 else 0
         flat = combo[4] if len(combo) > 4 else False
@@ -194,7 +208,9 @@ def run_case(case):
         units = "seconds"
         if (len(frames) + nsteps) % 5 == 0 and sc:
             units = "hours" if rev else "days"  # a slice with other CF time units
-        res = run_layout(nsteps, frames, sz, rev, sc, units, late, flat)
+        res = run_layout(nsteps, frames, sz, rev, sc, units, late, flat, dshared)
+        if ci < warm:
+            continue
         n += 1
         handover = any(0 < s < nsteps for s in frames)
         interp = any(s not in frames for s in range(nsteps))
